@@ -526,6 +526,8 @@ impl<const H: usize> Reader<H> {
 
         self.file
             .write_all_at(&write_buf, offset + LEN_SIZE as u64)?;
+        // Other readers of this segment may hold the old header in their read-ahead buffers
+        self.flushed_offset.mark_rewritten();
 
         // Invalidate cache if overlapping
         if self
